@@ -174,6 +174,37 @@ theorem Tri.head_while {σ : Type} {R : Replay σ} {fuel head body} (I J Q : Pre
   · intro c env inp ls hc h
     cases c <;> simp_all [headPost, Ctl.goesOn, brkPost]
 
+theorem Tri.ifte {σ : Type} {R : Replay σ} {fuel c a b} {P PA PB : Pre σ} {Q : Post σ}
+    (hc : ∀ env inp ls, P env inp ls → ∃ v, eval env c = .ok v ∧
+      (if v.truthy = true then PA env inp ls else PB env inp ls))
+    (hA : Tri R fuel a PA Q) (hB : Tri R fuel b PB Q) : Tri R fuel (.ifte c a b) P Q := by
+  intro env inp ls hp
+  obtain ⟨v, hv, hbr⟩ := hc env inp ls hp
+  rw [exec_ifte, hv]
+  simp only [bind, Except.bind]
+  by_cases ht : v.truthy = true
+  · rw [if_pos ht] at hbr ⊢
+    exact hA env inp ls hbr
+  · rw [if_neg ht] at hbr ⊢
+    exact hB env inp ls hbr
+
+/-- call of a parameterless `void` function whose specification only mentions the private view -/
+theorem Tri.call0 {σ : Type} {R : Replay σ} {fuel body} {P Q : (Loc → Option Val) → List Val → σ → Prop}
+    (h : Tri R fuel body (fun e i s => P e.priv i s) (norm (fun e i s => Q e.priv i s))) :
+    Tri R fuel (.call none [] [] body) (fun e i s => P e.priv i s) (norm (fun e i s => Q e.priv i s)) := by
+  intro env inp ls hp
+  obtain ⟨o, ho, ls', hl, hq⟩ := h ⟨bindParams [] [], env.priv⟩ inp ls hp
+  rw [exec_call]
+  simp only [evalArgs, List.length_nil, ne_eq, not_true_eq_false, if_false, ho]
+  rcases o with ⟨ev, en, ip, ctl⟩
+  cases ctl with
+  | normal => exact ⟨_, rfl, ls', hl, hq⟩
+  | ret v => simp [norm] at hq
+  | brk => simp [norm] at hq
+  | cont => simp [norm] at hq
+  | blocked => exact ⟨_, rfl, ls', hl, trivial⟩
+  | fuel => exact ⟨_, rfl, ls', hl, trivial⟩
+
 /-! ## regrouping of a right-nested sequence -/
 
 theorem exec_seq_assoc (fuel a b c env inp) :
